@@ -68,7 +68,7 @@ def check_case(g, X, Y, Z, est, model, den, env_mode, timeout_ms):
             out["violation"] = {"kind": "vocabulary", "why": str(e), "env": env}
             return out
         rhs = truth(model, X, Y, Z, env)
-        verdict, m, dt = Decider(model.constraints, timeout_ms).differ(lhs, rhs)
+        verdict, m, dt = Decider(model.constraints, timeout_ms, model.params).differ(lhs, rhs)
         out["queries"] += 1
         out["secs"] += dt
         out[verdict] += 1
